@@ -2203,17 +2203,11 @@ class _FormatInferInstance(Visitor):
             return SetFormat.from_value(Fraction(0))
 
         elt_fmt = arg_fmt.elt
-        # Single-element reduction: ``sum([x])`` evaluates to
-        # ``round_C(x)``.  Tighten to ``elt_fmt`` when it fits under
-        # the scope; otherwise the round may not be the identity.
+        # Single-element reduction: ``sum([x])`` is ``x`` itself.  The fold
+        # starts from ``xs[0]`` and only an addition rounds, so with no
+        # addition nothing rounds -- whatever the active context.
         if n == 1:
-            if isinstance(elt_fmt, SetFormat):
-                fitted = self._bound_if_fits(e, elt_fmt)
-            elif isinstance(elt_fmt, AbstractableFormat):
-                fitted = self._bound_if_fits(e, AbstractFormat.from_format(elt_fmt))
-            else:
-                fitted = None
-            return fitted if fitted is not None else self._op_bound(e)
+            return elt_fmt if elt_fmt is not None else self._op_bound(e)
 
         # ``n >= 2``: simulate ``n - 1`` pairwise additions through
         # AbstractFormat, then check the final accumulator against the
